@@ -669,7 +669,7 @@ func checkC04(c *Ctx) *core.Result {
 		r.Fail("N5", core.QualName(isURL), "schemes are matched through the entity-decoding matcher", p.Pos(isURL.Pos()), "the URL predicate does not call the entity-decoding prefix matcher")
 	}
 
-	r.Explanation = "NECESSARY CONDITIONS ONLY — this check decides the structural parts listed here, not detection of the generated vectors. N1: five contexts ORed with the right start states on fresh state (rules X1–X3 of C13). N2: the classifier's positive-verdict sites, described by the facts that dominate them, contain: DocType unconditionally; TagNameOpen gated exactly by the tag predicate on the whole token; for every attribute type that occurs in the shipped lists a site under AttrValue ∧ attr==type (Black/Style unconditional, URL gated by the URL predicate on the whole token, Indirect gated by attribute-predicate==Black); TagComment with back-tick, IF, XML, IMPORT, ENTITY; AttrName tokens feed the attribute predicate. N3: every loop over blackTags/blacks/blackEvents runs 0..len-1 step 1. N4: every comparison with a list element or letter constant in the two name predicates uses ToUpper(ReplaceAll(x,\"\\x00\",\"\")). N-b: raw-length shortcuts only reject below the shortest listed name. N5: the scheme list holds upper-case prefixes of JAVASCRIPT, VBSCRIPT, DATA, VIEW-SOURCE and is matched through the entity-decoding matcher."
+	r.Explanation = "NECESSARY CONDITIONS ONLY — this check decides the structural parts listed here, not detection of the generated vectors. N1: five contexts ORed with the right start states on fresh state (rules X1–X3 of C13). N2: the classifier's positive-verdict sites, described by the facts that dominate them, contain: DocType unconditionally; TagNameOpen gated exactly by the tag predicate on the whole token; for every attribute type that occurs in the shipped lists a site under AttrValue ∧ attr==type (Black/Style unconditional, URL gated by the URL predicate on the whole token, Indirect gated by attribute-predicate==Black); TagComment with back-tick, IF, XML, IMPORT, ENTITY; AttrName tokens feed the attribute predicate. N3: every loop over blackTags/blacks/blackEvents runs 0..len-1 step 1. N4: every comparison with a list element or letter constant in the two name predicates uses ToUpper(ReplaceAll(x,\"\\x00\",\"\")). N-b: length shortcuts (on the raw name or on its normal form) only reject below the shortest listed name; upper bounds on the raw length are reported. N5: the scheme list holds upper-case prefixes of JAVASCRIPT, VBSCRIPT, DATA, VIEW-SOURCE and is matched through the entity-decoding matcher."
 	r.Trusted = []string{"go/ssa", "facts from edge-dominating branches", "table extraction", "rules of C13"}
 	return r
 }
